@@ -22,7 +22,8 @@ RULE = (
     "sizes. Non-trivial = at least one parameter has a non-zero finite-difference derivative."
 )
 ASSUMPTIONS = [
-    "float64; finite differences with steps 1e-6 and 2.5e-7 (relative); a coordinate whose two step sizes disagree is a kink (ReLU / spline knot crossed) and is skipped and counted",
+    "float64; finite differences with steps 1e-6 and 2.5e-7 (relative); a coordinate whose two step sizes disagree, or whose one-sided slopes differ by a step-independent amount (value exactly on a kink: relu(0) behind a zero bias), is a kink and is skipped and counted",
+    "the parameter objects present before the first call must still be the module's parameters afterwards (otherwise an optimiser built beforehand never sees a gradient)",
     "agreement to 2e-5 relative + 1e-7*max(1,|f|) absolute; UMNN (quadrature forward, Leibniz-rule backward) to 2e-3 with the smooth integrand and 5e-2 with the default ReLU integrand",
     "training mode: dropout made reproducible by seeding before every evaluation; ActNorm warmed up with one training forward before differentiating",
 ]
@@ -37,6 +38,7 @@ def fd_check(f, tensors, names, g_auto, tol_rel, fval, max_scalars=160):
     out = []
     stats = {"checked": 0, "kinks": 0, "nonzero": 0}
     total = sum(t.numel() for t in tensors)
+    f0 = f()
     stride = max(1, -(-total // max_scalars))
     idx = 0
     for t, name, g in zip(tensors, names, g_auto):
@@ -50,7 +52,7 @@ def fd_check(f, tensors, names, g_auto, tol_rel, fval, max_scalars=160):
             if kind == "parameter" and (idx % stride):
                 continue
             old = float(flat[j])
-            ds = []
+            ds, jumps = [], []
             for h in (1e-6, 2.5e-7):
                 hh = h * max(1.0, abs(old))
                 flat[j] = old + hh
@@ -59,12 +61,18 @@ def fd_check(f, tensors, names, g_auto, tol_rel, fval, max_scalars=160):
                 fm = f()
                 flat[j] = old
                 ds.append((fp - fm) / (2 * hh))
+                jumps.append(((fp - f0) - (f0 - fm)) / hh)  # right minus left one-sided slope: O(h) when smooth, constant on a kink
             stats["checked"] += 1
             d1, d2 = ds
             if not (np.isfinite(d1) and np.isfinite(d2)):
                 stats["kinks"] += 1
                 continue
             if abs(d1 - d2) > 1e-4 * max(abs(d1), abs(d2)) + 1e-6 * max(1.0, abs(fval)):
+                stats["kinks"] += 1
+                continue
+            # a value sitting exactly on a kink (relu(0) behind a zero-initialised bias, a coordinate on a knot): the central
+            # differences agree with each other (mean of the two slopes) but the one-sided slopes differ by a step-independent amount
+            if abs(jumps[1]) > 1e-4 * max(abs(d1), abs(d2)) + 1e-6 * max(1.0, abs(fval)) and abs(jumps[1]) > 0.5 * abs(jumps[0]):
                 stats["kinks"] += 1
                 continue
             fd = d2
@@ -84,6 +92,15 @@ def fd_check(f, tensors, names, g_auto, tol_rel, fval, max_scalars=160):
                 out.append((kind, "gradient differs from the finite difference", "%s[%d]: autograd %.9g, finite difference %.9g (tolerance %.2g)" % (name, j, ga, fd, tol)))
                 break
     return out, stats
+
+
+def _replaced(m, pre):
+    """a call that re-creates a trainable parameter leaves the tensor an optimiser holds without any gradient, for ever"""
+    post = dict(m.named_parameters())
+    gone = [n for n, p in pre if post.get(n) is not p]
+    if gone:
+        return ("parameter", "trainable parameter replaced by a new object during a call", "parameters %s are not the objects they were before the call: gradients never reach the tensors collected beforehand" % gone[:4])
+    return None
 
 
 def transform_case(sname, cfg, pname, train, seed, res=None):
@@ -114,6 +131,7 @@ def transform_case(sname, cfg, pname, train, seed, res=None):
         y, ld = m(x, ctx) if ctx is not None else m(x)
         return (y.reshape(3, -1) * w1.reshape(3, -1)).sum() + (ld * w2).sum()
 
+    pre = list(m.named_parameters())  # what an optimiser constructed before the first call holds
     try:
         if train:
             with torch.no_grad():
@@ -123,6 +141,9 @@ def transform_case(sname, cfg, pname, train, seed, res=None):
         if res is not None:
             bump(res["skipped"], "forward raises (other properties): %s" % type(e).__name__)
         return None
+    rep = _replaced(m, pre)
+    if rep:
+        return [rep], {"checked": 0, "kinks": 0, "nonzero": 0}
     params = [p for p in m.parameters() if p.requires_grad]
     names = [n for n, p in m.named_parameters() if p.requires_grad]
     tensors = params + [x] + ([ctx] if ctx is not None else [])
@@ -159,6 +180,7 @@ def dist_case(dname, cfg, pname, train, seed, res=None):
         torch.manual_seed(3)
         return (m.log_prob(x, context=ctx) * w).sum()
 
+    pre = list(m.named_parameters())
     try:
         if train:
             with torch.no_grad():
@@ -168,6 +190,9 @@ def dist_case(dname, cfg, pname, train, seed, res=None):
         if res is not None:
             bump(res["skipped"], "log_prob raises (other properties): %s" % type(e).__name__)
         return None
+    rep = _replaced(m, pre)
+    if rep:
+        return [rep], {"checked": 0, "kinks": 0, "nonzero": 0}
     params = [p for p in m.parameters() if p.requires_grad]
     names = [n for n, p in m.named_parameters() if p.requires_grad]
     tensors = params + ([x] if x.requires_grad else []) + ([ctx] if ctx is not None else [])
